@@ -34,6 +34,7 @@ struct St {
     sends_checked: u32,
     unknown_checked: u32,
     departed_checked: u32,
+    half_closed_checked: u32,
 }
 
 fn router_world(ctx: &mut Ctx) {
@@ -135,7 +136,14 @@ fn router_world(ctx: &mut Ctx) {
                 }
                 if p.departs {
                     if peer.wait_hello().await.is_ok() {
-                        peer.close();
+                        // half of the departing peers only shut down their sending direction and
+                        // go on reading: whatever the socket still writes to them is accepted
+                        if i % 2 == 0 {
+                            peer.half_close();
+                            s3.borrow_mut().keep.push(peer);
+                        } else {
+                            peer.close();
+                        }
                     }
                 } else {
                     s3.borrow_mut().keep.push(peer);
@@ -202,6 +210,13 @@ fn router_world(ctx: &mut Ctx) {
         let conns: Vec<Option<Arc<rt::net::Conn>>> = s2.borrow().conns.clone();
         for (n, t) in targets2.iter().enumerate() {
             let body = tagged(99, n as u32, &shapes[n]);
+            // a peer that has only shut down its sending direction still reads: the statement does
+            // not settle whether it counts as connected, so a send addressed to it may fail (nothing
+            // written) or succeed (the exact bytes on its connection, nothing elsewhere)
+            let half_closed = match t {
+                Target::Departed(i) => conns[*i].as_ref().map(|c| c.write_closed(0) && c.side_state(0).closed.is_none()).unwrap_or(false),
+                _ => false,
+            };
             let (id, expect_peer): (Vec<u8>, Option<usize>) = match t {
                 // the announced identity is the address (the label learnt from recv only where none was announced)
                 Target::Peer(i) => match plans2[*i].identity.clone().filter(|x| !x.is_empty()).or(labels[*i].clone()) {
@@ -217,7 +232,7 @@ fn router_world(ctx: &mut Ctx) {
             // a departed peer only counts once its connection is really closed
             if let Target::Departed(i) = t {
                 match &conns[*i] {
-                    Some(c) if c.side_state(0).closed.is_some() => {}
+                    Some(c) if c.side_state(0).closed.is_some() || c.write_closed(0) => {}
                     _ => continue,
                 }
             }
@@ -245,6 +260,16 @@ fn router_world(ctx: &mut Ctx) {
                 (Some(i), Err(e)) => {
                     s2.borrow_mut().viol.push(("send_to_connected_peer_failed", format!("send #{n} to peer {i} (label {}) failed: {e}", hex(&id))));
                     return world::park().await;
+                }
+                (None, Ok(())) if half_closed => {
+                    let Target::Departed(i) = t else { unreachable!() };
+                    let enc = rc::encode_msg(&body);
+                    let tap = conns[*i].as_ref().unwrap().tap_from(1);
+                    if after[*i] - before[*i] != enc.len() || tap[before[*i]..] != enc[..] || (0..conns.len()).any(|j| j != *i && after[j] != before[j]) {
+                        s2.borrow_mut().viol.push(("routed_bytes_wrong", format!("send #{n} to peer {i} (which has shut down its sending direction and still reads) returned Ok; tap deltas {:?}, expected exactly the {} bytes of {} on its connection", after.iter().zip(before.iter()).map(|(a, b)| a - b).collect::<Vec<_>>(), enc.len(), show_msg(&body))));
+                        return world::park().await;
+                    }
+                    s2.borrow_mut().half_closed_checked += 1;
                 }
                 (None, Ok(())) => {
                     let what = if matches!(t, Target::Departed(_)) { "send_to_departed_peer_succeeded" } else { "send_to_unknown_identity_succeeded" };
@@ -285,6 +310,7 @@ fn router_world(ctx: &mut Ctx) {
     ctx.probe_n("routed_send_checked", s.sends_checked as u64);
     ctx.probe_n("unknown_identity_send_checked", s.unknown_checked as u64);
     ctx.probe_n("departed_peer_send_checked", s.departed_checked as u64);
+    ctx.probe_n("send_to_half_closed_peer_succeeded_and_was_exact", s.half_closed_checked as u64);
     if s.sends_checked + s.unknown_checked + s.departed_checked > 0 && k > 1 {
         ctx.nontrivial();
     }
